@@ -137,7 +137,6 @@ Definition err_matches (m i : option api_err) : bool :=
 
 Definition prefix_segments (prefix : str) : list str := if is_empty prefix then [] else path_segments prefix.
 
-Definition start_net (script : list behaviour) (pre : bool) : net := {| n_script := script; n_done := pre; n_seen := [] |}.
 
 Definition check (s : sx) : Z :=
   match s with
